@@ -357,6 +357,15 @@ def rule_R19_5(ctx):
         else:
             r.unproven.append("%s: stdout write is not a println!" % f.path)
         reach = prog.reachable_from([f.path], graph)
+        ident = sorted(p for p in reach if "::ptr_eq" in p or (p.endswith("::as_ptr") and "Arc" in p)
+                       or p.startswith("std::ptr::addr") or p.endswith("Arc::<T>::into_raw"))
+        r.inst("%s reaches identity/address observers: %s" % (f.path, ident))
+        if not ident:
+            r.ok()
+        else:
+            r.fail("%s | rendering observes identity via %s" % (f.path, ident[0].split("::")[-1]),
+                   "printing can reach %s: the rendering of a value can then "
+                   "depend on aliasing, not only on its structure" % ident[0])
         amb = [p for p in reach if AMBIENT.match(p)]
         scope = [p for p in reach if "ScopeStack" in p]
         r.inst("%s reaches ambient: %s, scope access: %s" % (f.path, amb, scope))
